@@ -45,6 +45,7 @@ theorem parse_falls {f k rest} (h : ¬ k < T.n) : parse T (f+1) k (.falls :: res
 theorem parse_sonst {f k rest} (h : ¬ k < T.n) : parse T (f+1) k (.sonst :: rest) = none := by simp [parse, h]
 theorem parse_entw {f k rest} (h : ¬ k < T.n) : parse T (f+1) k (.entw :: rest) = none := by simp [parse, h]
 theorem parse_oderk {f k rest} (h : ¬ k < T.n) : parse T (f+1) k (.oderk :: rest) = none := by simp [parse, h]
+theorem parse_cls {f k o rest} (h : ¬ k < T.n) : parse T (f+1) k (.cls o :: rest) = none := by simp [parse, h]
 theorem parseX_zero (ts) : parseX T 0 ts = none := by simp [parseX]
 theorem parseX_entw {f rest} :
     parseX T (f+1) (.entw :: rest) = ((parse T f 0 rest).bind expectOderk).bind (fun pa =>
@@ -55,7 +56,8 @@ theorem parseX_other {f ts} (h : ∀ r, ts ≠ .entw :: r) : parseX T (f+1) ts =
   | nil => simp [parseX]
   | cons t r => cases t <;> simp_all [parseX]
 theorem loop_bop_eq {f k l o rest} (h : T.lv o = k) :
-    loop T (f+1) k l (.bop o :: rest) = (parse T f (k+1) rest).bind (fun p => loop T f k (.bin o l p.1) p.2) := by
+    loop T (f+1) k l (.bop o :: rest) =
+      ((parse T f (k+1) rest).bind (expectCl T o)).bind (fun p => loop T f k (.bin o l p.1) p.2) := by
   simp [loop, h]
 theorem loop_bop_ne {f k l o rest} (h : T.lv o ≠ k) :
     loop T (f+1) k l (.bop o :: rest) = some (l, .bop o :: rest) := by
@@ -109,6 +111,7 @@ theorem mono_step : ∀ f,
           | sonst => simp [parse_sonst T hk] at h
           | entw => simp [parse_entw T hk] at h
           | oderk => simp [parse_oderk T hk] at h
+          | cls o => simp [parse_cls T hk] at h
           | uop u =>
             rw [parse_uop T hk] at h ⊢
             cases hp : parse T f k rest with
@@ -130,10 +133,14 @@ theorem mono_step : ∀ f,
         · rw [loop_bop_eq T ho] at h ⊢
           cases hp : parse T f (k+1) rest with
           | none => simp [hp] at h
-          | some p =>
+          | some p0 =>
             simp only [hp, Option.bind_some] at h
-            simp only [ihp _ _ _ hp, Option.bind_some]
-            exact ihl _ _ _ _ h
+            cases he : expectCl T o p0 with
+            | none => simp [he] at h
+            | some p =>
+              simp only [he, Option.bind_some] at h
+              simp only [ihp _ _ _ hp, Option.bind_some, he]
+              exact ihl _ _ _ _ h
         · rw [loop_bop_ne T ho] at h ⊢; exact h
       · have hb' : ∀ o r, ts ≠ .bop o :: r := fun o r hh => hb ⟨o, r, hh⟩
         rw [loop_other T hb'] at h ⊢; exact h
@@ -297,12 +304,22 @@ theorem S_un (u : Nat) (e : E) (ih : S T e) : S T (.un u e) := by
   · intro o r hr; exact Or.inl (hok o r hr)
 
 theorem pp_bin_open {o l r k} (h : ¬ T.lv o < k) :
-    pp T k (.bin o l r) = pp T (T.lv o) l ++ .bop o :: pp T (T.lv o + 1) r := by
+    pp T k (.bin o l r) = pp T (T.lv o) l ++ .bop o :: (pp T (T.lv o + 1) r ++ clTok T o) := by
   simp [pp, wrap, h]
 
 theorem pp_bin_closed {o l r k} (h : T.lv o < k) :
-    pp T k (.bin o l r) = .lp :: ((pp T (T.lv o) l ++ .bop o :: pp T (T.lv o + 1) r) ++ [.rp]) := by
+    pp T k (.bin o l r) = .lp :: ((pp T (T.lv o) l ++ .bop o :: (pp T (T.lv o + 1) r ++ clTok T o)) ++ [.rp]) := by
   simp [pp, wrap, h]
+
+theorem okRest_clTok {k o rest} (h : okRest T k rest) : okRest T k (clTok T o ++ rest) := by
+  unfold clTok
+  split
+  · intro o' r' hr; cases hr
+  · simpa using h
+
+theorem expectCl_clTok (o : Nat) (e : E) (rest : List Tok) : expectCl T o (e, clTok T o ++ rest) = some (e, rest) := by
+  unfold expectCl clTok
+  split <;> simp
 
 /-- `S'` of a chain node at its own rung, from its operands -/
 theorem S'_bin_own (o : Nat) (l r : E) (ho : T.lv o < T.n) (ihl' : S' T l) (ihr : S T r) :
@@ -310,20 +327,16 @@ theorem S'_bin_own (o : Nat) (l r : E) (ho : T.lv o < T.n) (ihl' : S' T l) (ihr 
     ∃ f, (parse T f (T.lv o + 1) (pp T (T.lv o) (.bin o l r) ++ rest)).bind
       (fun p => loop T f (T.lv o) p.1 p.2) = some X := by
   intro rest X hok ⟨f1, h1⟩
-  rw [pp_bin_open T (Nat.lt_irrefl _), List.append_assoc, List.cons_append]
-  apply ihl' (T.lv o) ho (.bop o :: (pp T (T.lv o + 1) r ++ rest)) X
+  rw [pp_bin_open T (Nat.lt_irrefl _), List.append_assoc, List.cons_append, List.append_assoc]
+  apply ihl' (T.lv o) ho (.bop o :: (pp T (T.lv o + 1) r ++ (clTok T o ++ rest))) X
   · intro o' r' hr
     have : o = o' := by injection hr with h1 _; injection h1
     subst this; omega
-  · obtain ⟨f2, h2⟩ := ihr (T.lv o + 1) (by omega) rest hok
+  · obtain ⟨f2, h2⟩ := ihr (T.lv o + 1) (by omega) (clTok T o ++ rest) (okRest_clTok T hok)
     refine ⟨max f1 f2 + 1, ?_⟩
     rw [loop_bop_eq T rfl, parse_mono T (Nat.le_max_right f1 f2) h2]
-    simp only [Option.bind_some]
+    simp only [Option.bind_some, expectCl_clTok]
     exact loop_mono T (Nat.le_max_left f1 f2) h1
-
-
-theorem okRestI_nobop {rest} (h : okRestI rest) (k : Nat) : okRest T k rest :=
-  fun o r hr => absurd hr (h.1 o r)
 
 /-- what a chain rung prints never starts with `entweder` -/
 theorem pp_no_entw : ∀ (e : E) (k : Nat) (rest r : List Tok), pp T k e ++ rest ≠ .entw :: r := by
@@ -534,6 +547,17 @@ theorem closeParen_len {p x} (h : closeParen p = some x) : x.2.length < p.2.leng
   · next rest' hp => cases h; simp [hp]
   · cases h
 
+theorem expectCl_len {o p x} (h : expectCl T o p = some x) : x.2.length ≤ p.2.length := by
+  unfold expectCl at h
+  split at h
+  · split at h
+    · next o' rest' hp =>
+      split at h
+      · cases h; simp [hp]
+      · cases h
+    · cases h
+  · cases h; exact Nat.le_refl _
+
 theorem expectOderk_len {p x} (h : expectOderk p = some x) : x.2.length < p.2.length := by
   unfold expectOderk at h
   split at h
@@ -579,6 +603,7 @@ theorem progress : ∀ f,
           | sonst => simp [parse_sonst T hk] at h
           | entw => simp [parse_entw T hk] at h
           | oderk => simp [parse_oderk T hk] at h
+          | cls o => simp [parse_cls T hk] at h
           | uop u =>
             rw [parse_uop T hk] at h
             cases hp : parse T f k rest with
@@ -604,11 +629,16 @@ theorem progress : ∀ f,
         · rw [loop_bop_eq T ho] at h
           cases hp : parse T f (k+1) rest with
           | none => simp [hp] at h
-          | some p =>
+          | some p0 =>
             simp only [hp, Option.bind_some] at h
-            have a := ihp _ _ _ hp
-            have b := ihl _ _ _ _ h
-            simp only [List.length_cons]; omega
+            cases he : expectCl T o p0 with
+            | none => simp [he] at h
+            | some p =>
+              simp only [he, Option.bind_some] at h
+              have a := ihp _ _ _ hp
+              have a' := expectCl_len T he
+              have b := ihl _ _ _ _ h
+              simp only [List.length_cons]; omega
         · rw [loop_bop_ne T ho] at h; cases h; simp
       · have hb' : ∀ o r, ts ≠ .bop o :: r := fun o r hh => hb ⟨o, r, hh⟩
         rw [loop_other T hb'] at h; cases h; simp
@@ -730,6 +760,7 @@ theorem fuel_suffices : ∀ f,
           | sonst => simp [parse_sonst T hk] at h
           | entw => simp [parse_entw T hk] at h
           | oderk => simp [parse_oderk T hk] at h
+          | cls o => simp [parse_cls T hk] at h
           | uop u =>
             rw [parse_uop T hk] at h
             cases hp : parse T f k rest with
@@ -761,19 +792,24 @@ theorem fuel_suffices : ∀ f,
         · rw [loop_bop_eq T ho] at h
           cases hp : parse T f (k+1) rest with
           | none => simp [hp] at h
-          | some p =>
+          | some p0 =>
             simp only [hp, Option.bind_some] at h
-            have a := ihp _ _ _ hp
-            have b := ihl _ _ _ _ h
-            have len := (progress T f).1 _ _ _ hp
-            rw [hlb, loop_bop_eq T ho]
-            have h1 : bound T (k+1) rest ≤ lbound T (.bop o :: rest) - 1 := by
-              unfold bound lbound; simp only [List.length_cons]; rw [Nat.add_mul]; omega
-            rw [parse_mono T h1 a]
-            simp only [Option.bind_some]
-            apply loop_mono T _ b
-            have := mul_mono_len (T.n + 5) len
-            unfold lbound; simp only [List.length_cons]; rw [Nat.add_mul]; omega
+            cases he : expectCl T o p0 with
+            | none => simp [he] at h
+            | some p =>
+              simp only [he, Option.bind_some] at h
+              have a := ihp _ _ _ hp
+              have b := ihl _ _ _ _ h
+              have len := (progress T f).1 _ _ _ hp
+              have len' := expectCl_len T he
+              rw [hlb, loop_bop_eq T ho]
+              have h1 : bound T (k+1) rest ≤ lbound T (.bop o :: rest) - 1 := by
+                unfold bound lbound; simp only [List.length_cons]; rw [Nat.add_mul]; omega
+              rw [parse_mono T h1 a]
+              simp only [Option.bind_some, he]
+              apply loop_mono T _ b
+              have := mul_mono_len (T.n + 5) (Nat.lt_of_le_of_lt len' len)
+              unfold lbound; simp only [List.length_cons]; rw [Nat.add_mul]; omega
         · rw [loop_bop_ne T ho] at h; rw [hlb, loop_bop_ne T ho]; exact h
       · have hb' : ∀ o r, ts ≠ .bop o :: r := fun o r hh => hb ⟨o, r, hh⟩
         rw [loop_other T hb'] at h
